@@ -6,7 +6,8 @@ name=$(echo "$patch" | md5sum | cut -c1-8)
 wt=/tmp/mut/$name
 mkdir -p /tmp/mut
 git -C /repo worktree add -q --detach $wt HEAD || exit 2
-trap 'git -C /repo worktree remove --force '$wt' 2>/dev/null; rm -rf /verif/.build/alt-* /verif/.build/harness-[0-9a-f]*' EXIT
+tag=$(echo "$wt" | md5sum | cut -c1-10)
+trap 'git -C /repo worktree remove --force '$wt' 2>/dev/null; rm -rf /verif/.build/alt-'$tag' /verif/.build/harness-'$tag'*' EXIT
 git -C $wt apply $patch || { echo "PATCH-DOES-NOT-APPLY $patch"; exit 3; }
 for id in "$@"; do
   out=$(VERIF_REPO=$wt /verif/bin/verif check $id --tier ${TIER:-quick} 2>&1); rc=$?
